@@ -874,6 +874,48 @@ def a_flag_into_arms(fn, bi, i):
     return True
 
 
+def c_temp_into_source(fn, ref):
+    """t = X ; ...statements using t only... ; X = g(t)    ->   the same with t spelled X  (t NEW, X not touched in between, t dead after)"""
+    out = []
+    for bi, (o, f) in enumerate(blocks(fn)):
+        b = getattr(o, f)
+        for i, s in enumerate(b):
+            if not (isinstance(s, ast.Assign) and len(s.targets) == 1 and isinstance(s.targets[0], ast.Name) and isinstance(s.value, ast.Name)):
+                continue
+            t, x = s.targets[0].id, s.value.id
+            if t not in ref["new"] or t == x:
+                continue
+            total_t = sum(1 for n in ast.walk(fn) if isinstance(n, ast.Name) and n.id == t)
+            seen_t = 1
+            j = None
+            for k in range(i + 1, len(b)):
+                st = b[k]
+                cnt_t = sum(1 for n in ast.walk(st) if isinstance(n, ast.Name) and n.id == t)
+                x_nodes = [n for n in ast.walk(st) if isinstance(n, ast.Name) and n.id == x]
+                seen_t += cnt_t
+                is_final = isinstance(st, ast.Assign) and len(st.targets) == 1 and isinstance(st.targets[0], ast.Name) and st.targets[0].id == x and len(x_nodes) == 1 and cnt_t > 0
+                if is_final:
+                    j = k
+                    break
+                if x_nodes or isinstance(st, (ast.FunctionDef, ast.ClassDef)):
+                    break
+            if j is not None and seen_t == total_t:
+                out.append((bi, i, j))
+    return out
+
+
+def a_temp_into_source(fn, bi, i, j):
+    o, f = blocks(fn)[bi]
+    b = getattr(o, f)
+    t, x = b[i].targets[0].id, b[i].value.id
+    for st in b[i + 1:j + 1]:
+        for n in ast.walk(st):
+            if isinstance(n, ast.Name) and n.id == t:
+                n.id = x
+    del b[i]
+    return True
+
+
 REWRITES = [
     ("rename", c_rename, a_rename),
     ("else-hoist", c_else_hoist, a_else_hoist),
@@ -904,6 +946,7 @@ REWRITES = [
     ("ifexp-to-if", c_ifexp_to_if, a_ifexp_to_if),
     ("if-to-ifexp", c_if_to_ifexp, a_if_to_ifexp),
     ("flag-into-arms", c_flag_into_arms, a_flag_into_arms),
+    ("temp-into-source", c_temp_into_source, a_temp_into_source),
 ]
 
 
